@@ -116,14 +116,23 @@ def A1r(ctx):
             ctx.bad("A1r", fk, "try_unwrap must return Err(this) exactly when rt get_mut() is false and release exactly one count otherwise",
                     fn.loc(), detail="try_unwrap")
     # registry wiring
-    for (fk, ck, method) in ((A + "from_std", A + "from_std::{closure#0}", "insert"), (A + "from_raw", A + "from_raw::{closure#0}", "index")):
-        fn = need_fn(ctx, "A1r", ck)
+    for (fk, method) in ((A + "from_std", "insert"), (A + "from_raw", "index")):
+        fn = need_fn(ctx, "A1r", fk)
         if fn is None:
             continue
         n += 1
-        inst = prog.ident(ck)
-        hit = [b for (b, t, c) in prog.sites(inst) if prog.callee_key(c).lower().endswith("::" + method) and
-               mentions_field(arg_expr(fn.body, t, 0), EXEC, "arc_objs")]
+        hit = []
+        ck = fk
+        # the registry access sits in a closure handed to rt::execution - whichever closure of the function (or of a helper
+        # flattened into it) that is
+        for k2 in [fk] + list(prog.closures_of(fk)):
+            f2 = prog.fn(k2)
+            if f2 is None:
+                continue
+            for (b, t, c) in prog.sites(prog.ident(k2)):
+                if prog.callee_key(c).lower().endswith("::" + method) and t["args"] and mentions_field(arg_expr(f2.body, t, 0), EXEC, "arc_objs"):
+                    hit.append(b)
+                    ck = k2
         if hit:
             ctx.ok("A1r", fk, "arc_objs.%s" % method, [site_str(prog, ck, hit[0])])
         else:
